@@ -1,55 +1,9 @@
 ------------------------------ MODULE Calendar ------------------------------
 (***************************************************************************)
-(* Civil calendar 1901..2099 as a successor machine (the oracle), plus a    *)
-(* literal transcription of hermes/helper.go DateConverter / KalenderDate   *)
-(* (the closed forms with the month-offset table).                          *)
-(* Day number n: 1 = 01.01.1901 ... 72684 = 31.12.2099.                     *)
+(* Design-level machine for C12: walk the whole calendar 1901..2099 with    *)
+(* the successor machine and compare the code's closed forms (CalendarFn).  *)
 (***************************************************************************)
-EXTENDS Integers, Sequences
-
-FirstYear == 1901
-LastYear  == 2099
-
-IsLeap(y) == y % 4 = 0          \* exact for 1901..2099 (2000 is a leap year, 1900/2100 are outside)
-DaysInYear(y) == IF IsLeap(y) THEN 366 ELSE 365
-DaysInMonth(y, m) ==
-  IF m = 2 THEN (IF IsLeap(y) THEN 29 ELSE 28)
-  ELSE IF m \in {4, 6, 9, 11} THEN 30 ELSE 31
-
-\* a date is a record [y, m, d, n, doy]
-FirstDate == [y |-> FirstYear, m |-> 1, d |-> 1, n |-> 1, doy |-> 1]
-IsLastDate(c) == c.y = LastYear /\ c.m = 12 /\ c.d = 31
-
-NextDate(c) ==
-  IF c.d < DaysInMonth(c.y, c.m)
-    THEN [c EXCEPT !.d = c.d + 1, !.n = c.n + 1, !.doy = c.doy + 1]
-  ELSE IF c.m < 12
-    THEN [c EXCEPT !.d = 1, !.m = c.m + 1, !.n = c.n + 1, !.doy = c.doy + 1]
-  ELSE [y |-> c.y + 1, m |-> 1, d |-> 1, n |-> c.n + 1, doy |-> 1]
-
-\* number of 1 January of year y, by counting whole years (declarative, no month table)
-LeapYearsBefore(y) == (y - 1901) \div 4           \* leap years in 1901 .. y-1
-Jan1(y) == [y |-> y, m |-> 1, d |-> 1, n |-> (y - 1901) * 365 + LeapYearsBefore(y) + 1, doy |-> 1]
-
-(***************************************************************************)
-(* Literal transcription of the code                                       *)
-(***************************************************************************)
-MT0 == <<0, 31, 59, 90, 120, 151, 181, 212, 243, 273, 304, 334>>
-\* DateConverter: YR = year - 1900
-CodeMT(YR, mon) == MT0[mon] + (IF YR % 4 = 0 /\ mon >= 3 THEN 1 ELSE 0)
-CodeMasDat(y, m, d) == LET YR == y - 1900 IN (YR - 1) * 365 + (YR - 1) \div 4 + CodeMT(YR, m) + d
-CodeZtDat(y, m, d)  == CodeMT(y - 1900, m) + d
-
-\* KalenderDate
-MTK == <<31, 59, 90, 120, 151, 181, 212, 243, 273, 304, 334, 365>>
-CodeKalender(n) ==
-  LET YR0  == n \div 365
-      YR   == IF n % 365 <= YR0 \div 4 THEN YR0 - 1 ELSE YR0
-      TG   == n - YR * 365 - YR \div 4
-      KORR == IF (YR + 1) % 4 = 0 /\ TG > 59 THEN 1 ELSE 0
-      MTc(k) == IF k > 1 THEN MTK[k] + KORR ELSE MTK[k]
-      MOZ  == CHOOSE k \in 1..12 : TG <= MTc(k) /\ \A j \in 1..(k-1) : TG > MTc(j)
-  IN [y |-> YR + 1901, m |-> MOZ, d |-> IF MOZ > 1 THEN TG - MTc(MOZ - 1) ELSE TG]
+EXTENDS CalendarFn
 
 (***************************************************************************)
 (* Design-level machine: walk the whole range, compare the closed forms    *)
